@@ -4,7 +4,7 @@ K: generated VCFs x histories of runs (each run = constructor flags + query sequ
 real class (tools/impl_c18.py) and on the extracted Coq model (mode 0); answers and the cache files left on
 disk must agree exactly.  Under the theorems' precondition the answers must also equal the mode-independent
 specification (Coq spec_run, mode 3) and its python transcription used by search()."""
-import itertools, json, os, random
+import itertools, json, os, random, time
 from concurrent.futures import ThreadPoolExecutor
 import fw
 
@@ -315,6 +315,37 @@ def gen_case(rng, big=False):
     return {'vcf': vcf, 'history': hist}
 
 
+def gen_cache_text(rng):
+    """cache file contents: mostly well-formed lines, with the damage a foreign or truncated file could show"""
+    lines = []
+    for _ in range(rng.randint(0, 6)):
+        pos = str(rng.choice([-1, 0, 3, 7, 12, 105]))
+        base = rng.choice(['A', 'C', 'G', 'T', 'N', '*', 'AT', ''])
+        samples = ','.join(rng.sample(['S1', 'S2', 'B-1', 'x y', '', 'NA12878'], rng.randint(1, 3)))
+        k = rng.random()
+        if k < 0.08:
+            pos = rng.choice(['+5', ' 5', '5 ', '', 'x', '1.5', '--1', '-', '007', '5\x0b'])
+        fields = [pos, base, samples]
+        k = rng.random()
+        if k < 0.06:
+            fields = fields[:2]
+        elif k < 0.12:
+            fields.append('extra')
+        elif k < 0.15:
+            fields = [pos + ' ' + base, samples]
+        line = '\t'.join(fields)
+        k = rng.random()
+        if k < 0.1:
+            line = ' ' + line + ' '
+        elif k < 0.14:
+            line = ''
+        lines.append(line + rng.choice(['\n', '\n', '\n', '\r\n', '\r']))
+    text = ''.join(lines)
+    if text and rng.random() < 0.15:
+        text = text.rstrip('\r\n')
+    return text
+
+
 def exhaustive_cases(rng, limit=None):
     """one site, two samples: every genotype pair over a small allele menu x settings; each case runs the
     same queries eagerly, lazily, through a fresh cache and through the cache again"""
@@ -421,8 +452,8 @@ class Prop(fw.PropBase):
     def make_cases(self):
         quick = self.tier == 'quick'
         corpus = self.corpus_cases()
-        rnd = [gen_case(self.rng) for _ in range(260 if quick else 2600)]
-        rnd += [gen_case(self.rng, big=True) for _ in range(6 if quick else 60)]
+        rnd = [gen_case(self.rng) for _ in range(260 if quick else 18000)]
+        rnd += [gen_case(self.rng, big=True) for _ in range(6 if quick else 400)]
         exh = exhaustive_cases(self.rng, limit=(160 if quick else None))
         return corpus, rnd, exh
 
@@ -431,7 +462,9 @@ class Prop(fw.PropBase):
         corpus, rnd, exh = self.make_cases()
         cases = corpus + rnd + exh
         self.cases = cases
+        t0 = time.time()
         res = run_impl_cases(cases)
+        self.cov['seconds_running_the_real_class'] = round(time.time() - t0, 1)
         self.impl_res = res
         pre = [precondition(c) for c in cases]
         spec = [[spec_run(c['vcf'], run) for run in c['history']] for c in cases]
@@ -482,8 +515,10 @@ class Prop(fw.PropBase):
             'histogram_expected_answer': hist_ans,
             'contig_switches': switches, 'returns_to_evicted_contig': returns, 'contig_loads_served_from_cache': served,
             'precondition_hit_rate': round(sum(pre) / max(1, len(pre)), 4),
-            'exhaustive': (self.tier == 'thorough') and 'one site x two samples: all genotype pairs from a 10-entry menu x 4 '
-                          'allele menus x phased/selection/ignore settings x 4 mode flags (%d cases)' % len(exh),
+            'exhaustive': False,
+            'small_scope': ('complete' if self.tier == 'thorough' else 'sampled') + ': one site x two samples, all genotype pairs '
+                           'from a 10-entry menu x 4 allele menus x phased/selection/ignore settings, each run eagerly, lazily, '
+                           'through a fresh cache and through the cache again (%d cases)' % len(exh),
         })
         dis = []
         # ---- pysam's view of the generated VCF equals the abstraction handed to the model
@@ -540,6 +575,16 @@ class Prop(fw.PropBase):
             for (cf, ct), o in zip(nm, mn):
                 if fw.as_str(o[0]) != cache_name(cf, ct) or bool(o[1]) != cacheable(ct):
                     dis.append({'kind': 'python-cache-name-vs-coq', 'cfg': cf, 'contig': ct})
+            # read_cached on arbitrary (also damaged) cache files: real method against the model's parser
+            texts = [gen_cache_text(self.rng) for _ in range(150 if self.tier == 'quick' else 1500)]
+            rt = fw.run_impl('impl_c18.py', {'cache_texts': texts})['texts']
+            mt = fw.run_model('C18', 4, [[fw.to_val(t)] for t in texts])
+            for t, a, b in zip(texts, rt, mt):
+                got = [[e[0], fw.to_val(e[1]), [fw.to_val(x) for x in e[2]]] for e in a['entries']]
+                if got != b:
+                    dis.append({'kind': 'read_cached-vs-model-parser', 'text': t, 'impl': a, 'model': b})
+            self.cov['cache_texts_parsed_by_both'] = len(texts)
+            self.cov['cache_texts_where_read_cached_raised'] = sum(1 for a in rt if a['raised'])
             # vm_compute cross-check of the extracted binary
             small = [i for i in range(len(cases)) if len(json.dumps(cases[i])) < 2500] or list(range(len(cases)))
             idx = sorted(self.rng.sample(small, min(100, len(small))))
